@@ -75,7 +75,7 @@ impl CommandDefinition {
                 }
                 else {
                     let result = #fn_call;
-                    result.write_response(response).await.unwrap();
+                    result.write_response(response).await?;
                     Ok(())
                 }
             }
